@@ -131,6 +131,12 @@ def scripted_outcome(n=0):
             return payload
         raise ValueError(payload)
     kind, val = OUTCOME_BOX[0]
+    if kind == "attempts":
+        # val: list of ('value'|'exc', x) per execution attempt of this invocation
+        inv = _cur_inv_id()
+        k = ATTEMPTS.get(inv, 0)
+        ATTEMPTS[inv] = k + 1
+        kind, val = val[min(k, len(val) - 1)]
     if kind == "value":
         return val
     raise val
